@@ -49,6 +49,11 @@ def valBytes (vs : List Val) : Bytes := vs.map valByte
 
 def illTyped : Tr := Tr.panic .unreachable
 
+/-- a map entry: the key, then the value -/
+def serEntry (fk fv : Val → Tr) : Val → Tr
+  | .list [a, b] => fk a ▹ fv b
+  | _ => illTyped
+
 mutual
 def ser : Ty → Val → Tr
   | .int k, .int i => Tr.emit (encInt k i)
@@ -83,9 +88,7 @@ def ser : Ty → Val → Tr
       let es' := match k with
         | .hashMap => sortByKey entryKey es
         | _ => es
-      serLen es'.length ▹ serMany (fun e => match e with
-        | .list [a, b] => ser kt a ▹ ser vt b
-        | _ => illTyped) es'
+      serLen es'.length ▹ serMany (serEntry (ser kt) (ser vt)) es'
   | .array n t, .list vs =>
     if n == 0 then Tr.done
     else if t.isU8 then Tr.emit (valBytes vs)
